@@ -21,7 +21,17 @@ package marshal
 //@   callsite (mellium.im/xmlstream.WriterTo).WriteXML#1
 //@     after: wroteSelf = true
 //@   ensures[C05] result == nil ==> usedStart || wroteSelf
+//@   ghost flushed bool = false
+//@   callsite (mellium.im/xmlstream.Flusher).Flush#*
+//@     after: flushed = ret0 == nil
+//@   ensures[C05] result == nil && implements(w, xmlstream.Flusher) ==> flushed
 
-// EncodeXML: every error of encoding, copying and flushing is reported.
+// EncodeXML: every error of encoding, copying and flushing is reported, and a
+// nil return means that what was written has been flushed when the writer can
+// flush.
 //@ func EncodeXML
 //@   noswallow[C05]
+//@   ghost flushed bool = false
+//@   callsite (mellium.im/xmlstream.Flusher).Flush#*
+//@     after: flushed = ret0 == nil
+//@   ensures[C05] result == nil && implements(w, xmlstream.Flusher) ==> flushed
